@@ -461,6 +461,8 @@ CATALOGUE = {
     'fillna_backward': (_d_fill_dir, lambda f, a: f.fillna_backward(a['limit'], axis=a['axis'])),
     'fillna_leading': (_d_fillna, lambda f, a: f.fillna_leading(a['v'], axis=0)),
     'fillna_trailing_axis1': (_d_fillna, lambda f, a: f.fillna_trailing(a['v'], axis=1)),
+    'fillna_leading_axis1': (_d_fillna, lambda f, a: f.fillna_leading(a['v'], axis=1)),
+    'fillna_trailing': (_d_fillna, lambda f, a: f.fillna_trailing(a['v'], axis=0)),
     'isna': (_d_none, lambda f, a: f.isna()),
     'notna': (_d_none, lambda f, a: f.notna()),
     'dropna': (_d_dropna, _r_dropna),
@@ -525,13 +527,52 @@ def probes(ctx):
     ]
 
 
+_MISSING_OPS = ['fillna', 'fillna_forward', 'fillna_backward', 'fillna_leading', 'fillna_trailing', 'fillna_leading_axis1',
+                'fillna_trailing_axis1', 'dropna', 'isna', 'notna']
+_MISSING_DTYPES = ['float64', 'float64', 'float32', 'object', 'M8[D]', 'complex128', 'int64']
+
+
+def _missing_spec(rng):
+    """A spec whose cells are missing about half of the time, in runs: the sided / directional fills carry state
+    from block to block, so what they do depends on where a run of missing cells meets a block boundary."""
+    spec = F.random_spec(rng, max_rows=4, max_cols=6, min_rows=1, min_cols=3, dtypes=_MISSING_DTYPES,
+                         row_kinds=['auto', 'str'], col_kinds=['str', 'auto'])
+    nr, nc = spec.shape
+    for i in range(nr):
+        j = 0
+        while j < nc:
+            run = rng.randint(1, 3)
+            miss = rng.random() < 0.5
+            for jj in range(j, min(nc, j + run)):
+                dt = spec.dtypes[jj]
+                if miss:
+                    if dt in ('float64', 'float32'):
+                        spec.cells[i][jj] = V.NAN
+                    elif dt == 'object':
+                        spec.cells[i][jj] = rng.choice([None, V.NAN])
+                    elif dt == 'M8[D]':
+                        spec.cells[i][jj] = np.datetime64('NaT', 'D')
+                    elif dt == 'complex128':
+                        spec.cells[i][jj] = complex(V.NAN, 0)
+                else:
+                    spec.cells[i][jj] = V.element(dt, rng, missing_ok=False)
+            j += run
+    return spec
+
+
 def generate(ctx):
     rng = ctx.rng
     for _ in range(ctx.n(900, 16000)):
-        spec = F.random_spec(rng, max_rows=5, max_cols=6, dtypes=_DTYPES,
-                             row_kinds=['auto', 'int', 'str', 'negint', 'IndexDate', 'hier2', 'float'],
-                             col_kinds=['str', 'int', 'auto', 'hier2', 'negint'])
-        names = rng.sample(OPS, 14)
+        if rng.random() < 0.15:
+            spec = _missing_spec(rng)
+            names = [n for n in _MISSING_OPS if n in CATALOGUE]
+            ctx.tally('workload', 'missing_runs')
+        else:
+            spec = F.random_spec(rng, max_rows=5, max_cols=6, dtypes=_DTYPES,
+                                 row_kinds=['auto', 'int', 'str', 'negint', 'IndexDate', 'hier2', 'float'],
+                                 col_kinds=['str', 'int', 'auto', 'hier2', 'negint'])
+            names = rng.sample(OPS, 14)
+            ctx.tally('workload', 'general')
         ops = []
         for name in names:
             a = CATALOGUE[name][0](spec, rng)
